@@ -8,4 +8,4 @@ pub mod wire;
 
 use crate::kernel::EngineDef;
 
-pub static ALL: &[&EngineDef] = &[&merkle::BMT, &merkle::SMT, &vm::VM, &wire::WIRE, &mem::MEM, &da::DA, &pred::PRED];
+pub static ALL: &[&EngineDef] = &[&merkle::BMT, &merkle::SMT, &vm::VM, &vm::tables::TABLES, &wire::WIRE, &mem::MEM, &da::DA, &pred::PRED];
